@@ -107,10 +107,10 @@ def generate(outdir, tier):
     # find_pdu / tins_cast bodies from pdu.h over a chain of objects that carry their dynamic class
     out.append('typedef struct PDU_s { int cls; struct PDU_s* inner_pdu_; } PDU;')
     out.append('int G_T;  /* the class T asked for */')
-    out.append('''//@ func include/tins/pdu.h PDU::find_pdu match "T* find_pdu(PDUType type = T::pdu_flag) {"
+    out.append('''//@ func include/tins/pdu.h PDU::find_pdu match "T* find_pdu(PDUType type = T::pdu_flag)"
 sig: static PDU* PDU_find_pdu(PDU* this, PDUType type)
 rule: pdu->matches_flag\\(type\\) ==> k_matches(pdu->cls, type)
-rule: static_cast<T\\*>\\(pdu\\) ==> pdu
+rule: \\(\\(T\\*\\)\\(pdu\\)\\) ==> pdu
 rule: pdu->inner_pdu\\(\\) ==> pdu->inner_pdu_
 //@ endfunc
 //@ func include/tins/pdu.h tins_cast match "T tins_cast(U* pdu)"
